@@ -10,12 +10,13 @@ META = {
     'bounds': {
         'quick': 'inline payload: all Latin-1 strings len<=2 (no line breaks, no $, self-closing per the documented brace/backslash '
                  'rules, not starting with `<`); token-level payload 1..2 chars in 5 placements; payloads of <=5 pieces from 7 (deep nesting, escapes); wrap: 11 templates x 1..2 lines '
-                 'of 0..2 chars each over ASCII printable + tab, and single-string text',
+                 'of 0..2 chars each over ASCII printable + tab, and single-string text; multi-line text in one element (7 line sets with repeated and blank '
+                 'lines, wrap and inline, html/pug/haml/slim): every line present, in order',
         'thorough': 'inline payload len<=3; wrap: 1..3 lines',
     },
     'outside_claim': ['payloads containing `$` (numbering, C02) or line breaks (re-flowed by the formatter, C12/C15)',
                       'payloads starting with `<` (the HTML writer puts block-looking text on its own line even with format off)',
-                      '`$#` without an implicit repeater', 'multi-line text without implicit repeater',
+                      '`$#` without an implicit repeater', 'multi-line text beyond the concrete line sets of C04-c',
                       'code points >= 256; wrap lines outside ASCII printable + tab (so that "blank"/"trimmed" is unambiguous)'],
     'stubs': ['Config object is constructed outside the tracer from concrete options',
               'token-level jobs: tokenization of the concrete template runs outside the tracer'],
@@ -297,6 +298,72 @@ def mk_wrap_single(tpl, lmax):
             'functions': ['convert.convert (deepest last element)', 'convert.deepest_node', 'convert.insert_text']}
 
 
+LINESETS = [['Home', 'About', 'Home'], ['a', '', 'b'], ['x', 'x'], ['a', 'b', '', '', 'a'], ['one'], ['q', 'r', 'q', 'r'], ['m', '', '', 'n']]
+
+
+def mk_multiline(syntax):
+    """Multi-line text (several lines, repeated lines, blank lines inside) in one element, supplied as wrap text without an
+    implicit repeater or written inline: every line comes out, in order, none merged and none dropped."""
+    import emmet
+    from vf.util import untraced, pick_int
+
+    def extract(out):
+        lines = out.split('\n')
+        if syntax in ('html', 'xml'):
+            a = [i for i, l in enumerate(lines) if l.strip() == '<ey>']
+            b = [i for i, l in enumerate(lines) if l.strip() == '</ey>']
+            if len(a) != 1 or len(b) != 1:
+                return None
+            return [l.strip() for l in lines[a[0] + 1:b[0]]]
+        a = [i for i, l in enumerate(lines) if l.strip() in ('ey', '%ey')]
+        if len(a) != 1:
+            return None
+        got = []
+        for l in lines[a[0] + 1:]:
+            t = l.strip()
+            if syntax == 'haml':
+                if not t.endswith('|'):
+                    return None
+                got.append(t[:-1].strip())
+            else:
+                if not t.startswith('|'):
+                    return None
+                got.append(t[1:].strip())
+        return got
+
+    def harness(wrong):
+        def h(si: int, inline: bool):
+            if not (0 <= si < len(LINESETS)):
+                return 'skip'
+            ls = LINESETS[pick_int(si, 0, len(LINESETS) - 1)]
+            if len(ls) < 2 and not wrong:
+                pass
+            with untraced():
+                if inline:
+                    if ls[0] == '':
+                        return 'skip'        # an inline payload cannot start with a blank line in every syntax alike
+                    out = emmet.expand('ex>ey{' + '\n'.join(ls) + '}', {'syntax': syntax})
+                else:
+                    out = emmet.expand('ex>ey', {'syntax': syntax, 'text': list(ls)})
+                got = extract(out)
+            exp = [l.strip() for l in ls]
+            if not inline:
+                # wrap text: leading/trailing blank lines of the whole text are not content
+                while exp and exp[0] == '':
+                    exp = exp[1:]
+            if len(ls) == 1:
+                return True if (out.count(ls[0]) == 1 and not wrong) else 'single_line_text_lost'
+            if wrong:
+                exp = exp + ['!']
+            return True if got == exp else 'text_lines_merged_or_dropped'
+        return h
+    return {'fn': harness(False), 'twin': harness(True), 'witnesses': [dict(si=0, inline=False), dict(si=1, inline=True)],
+            'assumptions': ['syntax %s; text lines from %r (solver-chosen) as wrap text for `ex>ey` or inline in `ex>ey{..}`; calls concrete per path '
+                            '(outside the tracer)' % (syntax, LINESETS)],
+            'functions': ['OutputStream.push_string (line splitting)', 'format.utils.split_by_lines', 'format.indent_format.push_value',
+                          'format.html.element', 'convert.ConvertState.get_text']}
+
+
 def jobs(tier):
     q = tier == 'quick'
     out = []
@@ -324,6 +391,9 @@ def jobs(tier):
             out.append(Job('C04-b/wrap/%s/lines=%d' % (tpl, nl), 'vf.props.c04:mk_wrap', dict(tpl=tpl, nlines=nl, lmax=lmax),
                            shape='H', bound='%d lines x <=%d chars' % (nl, lmax), budget=900 if q else 3000,
                            weight=30 ** nl))
+    for syn in ('html', 'pug', 'haml', 'slim'):
+        out.append(Job('C04-c/multiline/%s' % syn, 'vf.props.c04:mk_multiline', dict(syntax=syn), shape='H', bound='7 line sets x 2 forms',
+                       budget=600, weight=25))
     for tpl in SINGLE:
         out.append(Job('C04-b/wrap-single/%s' % tpl, 'vf.props.c04:mk_wrap_single', dict(tpl=tpl, lmax=3), shape='H',
                        bound='text <=3 chars', budget=600, weight=30))
